@@ -123,8 +123,15 @@ def r07_1(ctx, rr):
         if n.get("k") == "Assign" and n["l"].get("k") == "Field" and n["l"]["name"] == "bit_width":
             bw = n
     rr.instances += 1
-    s = show(F, bw["r"]) if bw is not None else ""
-    rr.check(bw is not None and "maybe_max_value.upcast().len()" in s and "ilog2" not in s, "try_seed:bit_width=len(max)", "the bit width of a function must be the number of significant bits of the maximum value (`max.upcast().len()`)", F.loc(bw) if bw is not None else b.span)
+    uses_len = uses_log = False
+    if bw is not None:
+        for x in walk(bw["r"]):
+            if x.get("k") == "MethodCall":
+                if x["name"] == "len" and any(y.get("k") == "Path" and y.get("res") == "local" for y in walk(x["recv"])) and not x["args"]:
+                    uses_len = True
+                if "ilog" in x["name"] or x["name"] in ("leading_zeros", "log2", "next_power_of_two", "trailing_zeros"):
+                    uses_log = True
+    rr.check(bw is not None and uses_len and not uses_log, "try_seed:bit_width=len(max)", "the bit width of a function must be the number of significant bits of the maximum value (`max.upcast().len()`)", F.loc(bw) if bw is not None else b.span)
     # R07.5: the hint flows only into pre-sizing and logging
     bl = F.one(r"^func::vbuilder::VBuilder::<W, D, S, E>::build_loop$")
     uses = []
@@ -330,16 +337,33 @@ def r07_4(ctx, rr):
     F = ctx.F()
     p = F.one(r"^func::vbuilder::VBuilder::<W, D, S, E>::par_solve$")
     pm = {id(n): ps for n, ps in walk_with_parents(p.body)}
-    # (1) result: `if let Some(error) = err_recv.into_iter().next() { failed.store(true); return Err(error) } Ok(())`
-    s = show(F, p.body)
+    def is_chan_send(n):
+        return n.get("k") == "MethodCall" and n["name"] == "send" and "crossbeam_channel" in (F.callee(n) or "") and "SolveError" in show(F, n)
+
+    def is_failed_load(n):
+        return n.get("k") == "MethodCall" and n["name"] == "load" and (F.callee(n) or "").startswith(("std::sync::atomic", "core::sync::atomic"))
+
+    def is_failed_store(n, val):
+        return n.get("k") == "MethodCall" and n["name"] == "store" and (F.callee(n) or "").startswith(("std::sync::atomic", "core::sync::atomic")) and n["args"] and n["args"][0].get("v") is val
+    # (1) result: an error received from the workers is returned, after raising the failed flag; Ok(()) otherwise
+    err_rets = [n for n in walk(p.body) if n.get("k") == "Ret" and "e" in n and n["e"].get("k") == "Call" and n["e"].get("ctor") and "Err" in show(F, n["e"]["f"])]
     rr.instances += 1
-    rr.check("if let Some{0: error} = err_recv.into_iter().next()" in s or "err_recv" in s and "return v1::Err(error)" in s, "par_solve:err-propagated", "par_solve must return Err when any worker sent an error", p.span)
+    ok = False
+    for r in err_rets:
+        ps = pm.get(id(r), ())
+        for q in reversed(ps):
+            if q.get("k") == "If" and q["c"].get("k") == "Let" and "Some" in show_pat(F, q["c"]["pat"]) + q["c"]["pat"].get("name", ""):
+                init = q["c"]["init"]
+                if any(x.get("k") == "MethodCall" and x["name"] in ("next", "recv", "try_recv") for x in walk(init)):
+                    ok = True
+    rr.check(ok, "par_solve:err-propagated", "par_solve must return Err when any worker sent an error through the error channel", p.span)
     rr.instances += 1
-    rr.check(re.search(r"self\.failed\.store\(True", s) is not None and re.search(r"self\.failed\.store\(False", s) is not None, "par_solve:failed-flag", "par_solve must reset the `failed` flag at the start and raise it when a worker reports an error", p.span)
-    # (2) worker exits: every `return` inside the worker closure is preceded (in its block) by err_send.send,
-    #     or is the channel-closed arm, the failed-flag test, or the empty-shard exit (table-exempt)
+    stores_true = [n for n in walk(p.body) if is_failed_store(n, True)]
+    stores_false = [n for n in walk(p.body) if is_failed_store(n, False)]
+    rr.check(bool(stores_true) and bool(stores_false), "par_solve:failed-flag", "par_solve must reset the `failed` flag at the start and raise it when a worker reports an error", p.span)
+    # (2) worker exits: every bare `return` inside a worker closure follows a send on the error channel in its
+    #     block, or is the channel-closed arm, the failed-flag test, or the empty-shard exit (table-exempt)
     rets = [n for n in walk(p.body) if n.get("k") == "Ret" and "e" not in n]
-    just = 0
     for r in rets:
         ps = pm.get(id(r), ())
         blk = None
@@ -349,30 +373,41 @@ def r07_4(ctx, rr):
                 break
         reason = None
         if blk is not None:
-            stmts = blk["stmts"]
-            before = [st for st in stmts if st is not r]
-            if any("err_send.send(" in show(F, st) for st in before):
-                reason = "after err_send.send"
-        # enclosing condition
+            before = [st for st in blk["stmts"] if st is not r]
+            if any(is_chan_send(x) for st in before for x in walk(st)):
+                reason = "after a send on the error channel"
         conds = [q for q in ps if q.get("k") in ("If", "Match")]
-        cshow = " ".join(show(F, q.get("c", q.get("e", {"k": "?"})))[:80] for q in conds[-2:])
-        if reason is None and "self.failed.load" in cshow:
+        last = conds[-1] if conds else None
+        if reason is None and last is not None and last.get("k") == "If" and any(is_failed_load(x) for x in walk(last["c"])):
             reason = "failed flag observed"
-        if reason is None and "shard.is_empty()" in cshow:
+        if reason is None and last is not None and last.get("k") == "If" and last["c"].get("k") == "MethodCall" and last["c"]["name"] == "is_empty":
             reason = "empty shard (table-exempt: unreachable with consistent sharding, R07.1)"
-        if reason is None and conds and conds[-1].get("k") == "Match" and "recv()" in show(F, conds[-1]["e"]):
+        if reason is None and last is not None and last.get("k") == "Match" and any(x.get("k") == "MethodCall" and x["name"] == "recv" for x in walk(last["e"])):
             reason = "channel closed"
         rr.instances += 1
         rr.ob(reason is not None, key="par_solve:worker-exit:%s" % (reason or "unjustified"), sample={"exit_at": F.loc(r), "reason": reason})
         if reason is None:
             rr.violate("par_solve:worker-exit-unjustified", "a worker of par_solve returns at %s without sending an error, although the shard was not solved: par_solve would report Ok over an unsolved shard" % F.loc(r), F.loc(r))
     # (3) solve_shard error -> UnsolvableShard sent
+    ok = False
+    for n in walk(p.body):
+        if n.get("k") == "If" and any(x.get("k") == "Call" and x["f"].get("k") == "Path" and x["f"].get("name") == "solve_shard" for x in walk(n["c"])) and "is_err" in show(F, n["c"]):
+            ok = any(is_chan_send(x) and "UnsolvableShard" in show(F, x) for x in walk(n["th"])) and diverges(F, n["th"])
     rr.instances += 1
-    rr.check(re.search(r"if solve_shard\(.*\)\.is_err\(\) \{\s*let _ = err_send\.send\(SolveError::UnsolvableShard\)", s) is not None, "par_solve:unsolvable-sent", "a failed solve_shard must be reported as SolveError::UnsolvableShard", p.span)
+    rr.check(ok, "par_solve:unsolvable-sent", "a failed solve_shard must be reported as SolveError::UnsolvableShard and the worker must stop", p.span)
     # (4) check_dups: sort then adjacent-equal test sends DuplicateSignature
+    ok = False
+    for n in walk(p.body):
+        if n.get("k") == "If" and n["c"].get("k") == "Field" and n["c"]["name"] == "check_dups":
+            th = n["th"]
+            sorts = [x for x in walk(th) if x.get("k") == "MethodCall" and x["name"] == "sort"]
+            wins = [x for x in walk(th) if x.get("k") == "If" and any(y.get("k") == "MethodCall" and y["name"] in ("par_windows", "windows") for y in walk(x["c"]))]
+            if sorts and wins:
+                w = wins[0]
+                cmp_ok = any(y.get("k") == "Binary" and y["op"] == "==" and y["l"].get("k") == "Field" and y["l"]["name"] == "sig" and y["r"].get("k") == "Field" and y["r"]["name"] == "sig" for y in walk(w["c"]))
+                ok = cmp_ok and any(is_chan_send(x) and "DuplicateSignature" in show(F, x) for x in walk(w["th"])) and diverges(F, w["th"]) and F.line(sorts[0]) <= F.line(w)
     rr.instances += 1
-    rr.check(re.search(r"if self\.check_dups \{\s*shard\.radix_sort_builder\(\)\.sort\(\);\s*if shard\.par_windows\(2\)\.any\(\|w\| \(w\[0\]\.sig == w\[1\]\.sig\)\) \{\s*let _ = err_send\.send\(SolveError::DuplicateSignature\)", s) is not None,
-             "par_solve:dup-detection", "with check_dups the shard must be sorted and adjacent equal signatures reported as DuplicateSignature before solving", p.span)
+    rr.check(ok, "par_solve:dup-detection", "with check_dups the shard must be sorted and adjacent equal signatures reported as DuplicateSignature before solving", p.span)
 
 
 @rule("R08.3", props=["C08"], floor=2, title="filters: random prefill precedes solving on the EmptyVal path; silent dedup only for EmptyVal")
@@ -392,7 +427,7 @@ def r08_3(ctx, rr):
         rr.check(any("TypeId::of() == TypeId::of()" in c for c in cs), "par_solve:prefill-only-filters", "the random prefill must be guarded by the EmptyVal type test", F.loc(ev[fb[0]]["node"]))
         # the prefilled slice is the shard's own data chunk
         rr.instances += 1
-        rr.check("data.as_mut_slice()" in show(F, ev[fb[0]]["node"]), "par_solve:prefill-own-chunk", "the prefill must cover the shard's own chunk of the backend", F.loc(ev[fb[0]]["node"]))
+        rr.check(any(x.get("k") == "MethodCall" and x["name"] == "as_mut_slice" for x in walk(ev[fb[0]]["node"])), "par_solve:prefill-own-chunk", "the prefill must cover the shard's own chunk of the backend", F.loc(ev[fb[0]]["node"]))
     # dedup: the statement following `shard.dedup()` distinguishes filters (log only) from functions (error)
     ok = False
     for blk in walk(p.body):
@@ -403,7 +438,7 @@ def r08_3(ctx, rr):
             if x.get("k") == "MethodCall" and x["name"] == "dedup":
                 for y in st[i + 1:]:
                     if y.get("k") == "If" and "TypeId::of() == TypeId::of()" in show(F, y["c"]) and "el" in y:
-                        th_sends = "err_send.send" in show(F, y["th"])
+                        th_sends = any(x.get("k") == "MethodCall" and x["name"] == "send" for x in walk(y["th"]))
                         el = y["el"]
                         el_ifs = [z for z in walk(el) if z.get("k") == "If" and z["c"].get("k") == "Binary" and z["c"]["op"] == "!="]
                         el_ok = any("DuplicateLocalSignature" in show(F, z["th"]) and diverges(F, z["th"]) for z in el_ifs)
